@@ -1,3 +1,100 @@
-From C10 Require Import Model Spec Proofs.
-Theorem C10_placeholder : True. Proof. exact placeholder. Qed.
-Print Assumptions C10_placeholder.
+(* C10 — property theorems. Nothing but statements, each closed by `exact <lemma>`, with
+   Print Assumptions beneath, and non-vacuity examples.
+
+   Names: eager = how the transport reports the end of the body (see Model.v read_slice); it only
+   matters for an unterminated last line of exactly B bytes.  B = len of the bufio buffer =
+   max(maxDocumentSize, 16).  classify = the JSON decoder as oracle. *)
+From C10 Require Import Model Spec Proofs ProofsFraming ProofsTime ModelV0.
+
+(* For EVERY body, buffer size and transport: the request handled by the buffered reader and the
+   processing loop (the model the correspondence run executes) gives exactly the line-level
+   statement: blank lines may precede action lines, every action line is followed by one document
+   line; the stored documents are the within-limit JSON-object document lines, in order, each once,
+   bytes unchanged (CR LF / LF removed); over-size and non-object lines are skipped without
+   disturbing neighbours (also an over-size unterminated last line of any length); one invalid
+   document line or a protocol violation: nothing is stored and the request fails. *)
+Theorem C10_framing_exact :
+  forall (eager : bool) (B : nat), 2 <= B ->
+  forall (classify : list N -> cls) (body : list N),
+    run_body eager B (fun d => Some (classify d)) body = spec_outcome classify eager B body.
+Proof. exact framing_exact. Qed.
+Print Assumptions C10_framing_exact.
+
+(* the model's fuel is never exhausted and the loop never asks the oracle outside lines of the body *)
+Theorem C10_framing_total :
+  forall (eager : bool) (B : nat), 2 <= B ->
+  forall (classify : list N -> cls) (body : list N),
+    run_body eager B (fun d => Some (classify d)) body <> Fuel /\
+    run_body eager B (fun d => Some (classify d)) body <> Miss.
+Proof. exact run_total. Qed.
+Print Assumptions C10_framing_total.
+
+(* The instant put into the ID is the document's own time iff -futureDrift <= now - t <= drift, and
+   the receive time otherwise — for every pair of instants, including differences that saturate
+   time.Duration (boundaries = drift and = -futureDrift are inside). *)
+Theorem C10_time_rule :
+  forall now drift fdrift doc, (0 <= drift < max64)%Z -> (0 <= fdrift <= max64)%Z ->
+    id_time now drift fdrift doc = spec_time now drift fdrift doc.
+Proof. exact time_rule. Qed.
+Print Assumptions C10_time_rule.
+
+Theorem C10_time_rule_boundaries :
+  forall now drift fdrift, (0 <= drift < max64)%Z -> (0 <= fdrift <= max64)%Z ->
+    (id_time now drift fdrift (Some (now - drift)) = now - drift /\
+     id_time now drift fdrift (Some (now + fdrift)) = now + fdrift /\
+     id_time now drift fdrift (Some (now - drift - 1)) = now /\
+     id_time now drift fdrift (Some (now + fdrift + 1)) = now)%Z.
+Proof. exact time_rule_boundaries. Qed.
+Print Assumptions C10_time_rule_boundaries.
+
+(* seq.TimeToMID of an instant representable by UnixNano (1970 .. 2262) is its millisecond *)
+Theorem C10_mid_ms : forall t, (0 <= t <= max64)%Z -> mid_of t = ms_of t.
+Proof. exact mid_ms. Qed.
+Print Assumptions C10_mid_ms.
+
+(* the docs payload (4-byte little-endian length, then the bytes) decodes to the documents *)
+Theorem C10_payload_codec :
+  forall ds f, Forall (fun d => (N.of_nat (length d) < 2 ^ 32)%N) ds -> length ds < f ->
+    decode_docs f (encode_docs ds) = Ok ds.
+Proof. exact payload_codec. Qed.
+Print Assumptions C10_payload_codec.
+
+(* ---- non-vacuity / documentation of the repaired defects ---- *)
+
+(* a body with CR LF, a blank line, an over-size line, a non-object line: two documents stored *)
+Example C10_nonvacuous :
+  let cl := fun d => match d with 123%N :: _ => Object | _ => NonObject end in
+  (* {"index":{}}\r\n{"a":1}\r\n\n{"index":{}}\n{"b":"0123456789abcdef"}\n{"index":{}}\n7\n{"index":{}}\n{"c":2} *)
+  let body := [123;34;105;110;100;101;120;34;58;123;125;125;13;10;123;34;97;34;58;49;125;13;10;10;
+               123;34;105;110;100;101;120;34;58;123;125;125;10;
+               123;34;98;34;58;34;48;49;50;51;52;53;54;55;56;57;97;98;99;100;101;102;34;125;10;
+               123;34;105;110;100;101;120;34;58;123;125;125;10;55;10;
+               123;34;105;110;100;101;120;34;58;123;125;125;10;123;34;99;34;58;50;125]%N in
+  run_body false 16 (fun d => Some (cl d)) body
+    = Accepted [[123;34;97;34;58;49;125]%N; [123;34;99;34;58;50;125]%N].
+Proof. vm_compute. reflexivity. Qed.
+
+Example C10_time_nonvacuous :
+  (id_time 1790337600000000000 3600000000000 60000000000 (Some 1790334000000000000) = 1790334000000000000 /\
+   id_time 1790337600000000000 3600000000000 60000000000 (Some 1790333999999999999) = 1790337600000000000 /\
+   id_time 1790337600000000000 3600000000000 60000000000 (Some 13569465600000000000) = 1790337600000000000)%Z.
+Proof. repeat split; vm_compute; reflexivity. Qed.
+
+Example C10_time_rule_v0_refuted :
+  exists now drift fdrift t,
+    (0 <= drift < max64 /\ 0 <= fdrift <= max64 /\ in_drift now drift fdrift t = false /\
+     id_time_v0 now drift fdrift (Some t) = t /\
+     mid_of (id_time_v0 now drift fdrift (Some t)) <> ms_of now /\
+     mid_of (id_time_v0 now drift fdrift (Some t)) <> ms_of t)%Z.
+Proof. exact time_rule_v0_refuted. Qed.
+
+Example C10_framing_v0_refuted :
+  exists B body, 2 <= B /\
+    spec_outcome (fun _ => Object) false B body = Accepted [v0_doc] /\
+    run_body false B (fun _ => Some Object) body = Accepted [v0_doc] /\
+    run_body_v0 false B (fun _ => Some Object) body = Rejected.
+Proof. exact framing_v0_refuted. Qed.
+
+Example C10_estime_v0_refuted :
+  parse_es_v0 v0_es = Some 1790337630999999999%Z /\ parse_es v0_es = Some 1790337630099999999%Z.
+Proof. exact estime_v0_refuted. Qed.
